@@ -21,7 +21,15 @@ func init() {
 			n := 1
 			_ = tier
 			return []*Job{f4Job("layout", "VerifLayout", n, []string{"ran"}, []string{"C06-shift"},
-				"layout edits on the host programs (10; leaf kinds solver variables): a blank line or a comment-only line inserted before every row (top level, class, def, if/elsif/else, case/in, do-block bodies), the trailing newline removed, a newline added inside one or both of two string literals (incl. the identical-content cases); edited vs original program in one path")}
+				"[job layout] layout edits on the host programs (10; leaf kinds solver variables): a blank line or a comment-only line inserted before every row (top level, class, def, if/elsif/else, case/in, do-block bodies), the trailing newline removed, a newline added inside one or both of two string literals (incl. the identical-content cases); edited vs original program in one path"),
+				{Name: "comment-line-n0", Pkg: "ti/parser", Entry: "VerifCommentLine", N: 0, Budget: 200000, Reach: []string{"lexed"}, Asserts: []string{"C06-comment-tokens"}, Replay: "kernel",
+					Bound: "empty comment (`#` directly followed by the newline), indented or not: token stream (kinds, texts, rows) of A/#/B equals that of A/blank/B"},
+				{Name: "comment-line-n1", Pkg: "ti/parser", Entry: "VerifCommentLine", N: 1, Budget: 200000, Reach: []string{"lexed"}, Asserts: []string{"C06-comment-tokens"}, Replay: "kernel",
+					Bound: "comment body of 1 arbitrary rune (solver variable; not newline/NUL/'{')"},
+				{Name: "comment-line-n2", Pkg: "ti/parser", Entry: "VerifCommentLine", N: 2, Budget: 200000, Reach: []string{"lexed"}, Asserts: []string{"C06-comment-tokens"}, Replay: "kernel",
+					Bound: "comment body of 2 arbitrary runes (solver variables)"},
+				{Name: "comment-line-n3", Pkg: "ti/parser", Entry: "VerifCommentLine", N: 3, Budget: 200000, Reach: []string{"lexed"}, Asserts: []string{"C06-comment-tokens"}, Replay: "kernel",
+					Bound: "comment body of 3 arbitrary runes (solver variables)"}}
 		},
 		Custom:    replayPair,
 		Filter:    func(v *Violation) bool { return strings.HasPrefix(v.ID, "C06") },
